@@ -42,6 +42,8 @@ func runC18(l *core.Ledger) {
 	l.With(map[string]string{"C07-E3": "C18-Z1"}, func() { c07E3(l, r) })
 	l.With(map[string]string{"C07-E4": "C18-Z1"}, func() { c07E4(l, r) })
 	l.With(map[string]string{"C06-P5": "C18-Z1"}, func() { c06P5(l, r) })
+	l.Rule("C18-Z5", "a dequeued request is written or answered (C06-P14 re-run: the only way round the stream write is the ended edge of the request's own context, where the caller is answered) - a request dropped silently because 'its call has completed' leaves the router it registered for ever")
+	l.With(map[string]string{"C06-P14": "C18-Z5"}, func() { c06P14(l, r) })
 	// a one-way call that does not wait for the send registers no router: nothing would ever remove it
 	l.With(map[string]string{"C06-P3": "C18-Z1"}, func() { c06P3(l, findEntryPoints(l, r, "C06-P3")) })
 	l.With(map[string]string{"C09-W4": "C18-Z1"}, func() { c09W4(l, r) })
